@@ -56,6 +56,38 @@ fn sig_round_trip<const N: usize, const L: usize, D: crate::verif_api::Draw>(d: 
     }
 }
 
+/// Witness construction for the norm boundary of `verify` (used by the replay tool): a message,
+/// signature and public key whose (s1, s2) has squared norm exactly `floor(beta^2) + delta`.
+/// s2 = (1, 0, ..., 0), h = c - s1 with c = HashToPoint(salt || m), s1 a vector of the wanted norm.
+pub(crate) fn verify_at_boundary<const N: usize>(delta: i64) -> (bool, i64) {
+    let bound: i64 = if N == 512 { 34034726 } else { 70265242 };
+    let mut target = bound + delta - 1; // s2 contributes 1
+    let mut s1 = vec![0i64; N];
+    let mut k = 0;
+    while target > 0 && k < N {
+        let mut r = (target as f64).sqrt() as i64;
+        while r * r > target { r -= 1; }
+        while (r + 1) * (r + 1) <= target { r += 1; }
+        if r > 6144 { r = 6144; }
+        s1[k] = r;
+        target -= r * r;
+        k += 1;
+    }
+    assert!(target == 0, "could not decompose the target norm");
+    let m = b"boundary witness".to_vec();
+    let salt = [7u8; 40];
+    let c = hash_to_point(&[salt.to_vec(), m.clone()].concat(), N);
+    let h: Vec<Felt> = c.coefficients.iter().zip(s1.iter())
+        .map(|(ci, s)| *ci - Felt::new(*s as i16)).collect();
+    let pk = PublicKey::<N> { h: Polynomial::new(h) };
+    let mut s2 = vec![0i16; N];
+    s2[0] = 1;
+    let total = if N == 512 { 666 } else { 1280 };
+    let body = compress(&s2, total - 41).expect("s2 compresses");
+    let sig = Signature::<N> { r: salt, s: body };
+    (verify::<N>(&m, &sig, &pk), bound + delta)
+}
+
 const WIDTHS: [(usize, usize, usize); 4] = [(512, 0, 6), (1024, 0, 5), (512, 2, 8), (1024, 2, 8)];
 
 harnesses! {
